@@ -719,6 +719,59 @@ func c17OverwriteCheck(p *Prog) *RuleResult {
 			r.Fail("Compile refuse-overwrite condition", p.Pos(refuse.Pos()), "the overwrite error is not raised under (!AllowOverwrite ∧ canonical(output) ∈ canonical(inputs))")
 		}
 	}
+	// every input of the "file" namespace is remembered: the insert into the input-path map sits
+	// under nothing but the two option gates, the loop over the reachable files and the namespace
+	// test. Any further condition is a filter, and an output can then land on an input the check no
+	// longer knows (name templates may contain "../", so outputs are not confined to the out dir).
+	if mm != nil {
+		eachInstr(cf, func(b *ssa.BasicBlock, in ssa.Instruction) {
+			mu, ok := in.(*ssa.MapUpdate)
+			if !ok || mu.Map != ssa.Value(mm) {
+				return
+			}
+			r.Instances++
+			key := "Compile remembers every input path"
+			var extra []string
+			for _, f := range factsAt(b) {
+				c := f.Cond
+				if _, n, ok := loadedField(c); ok && (n == "AllowOverwrite" || n == "WriteToStdout") {
+					continue
+				}
+				// conditions decided before the stdout gate select whether Compile gets here at all
+				// (early returns); only what lies between the gate and the insert can filter inputs
+				if ci, ok := c.(ssa.Instruction); ok && ci.Block() != nil && !gateStdout.Dominates(ci.Block()) {
+					continue
+				}
+				if bo, ok := c.(*ssa.BinOp); ok {
+					// the range loop's own bound test
+					if ph, ok := bo.X.(*ssa.BinOp); ok && bo.Op == token.LSS && ph.Op == token.ADD {
+						if q, ok := ph.X.(*ssa.Phi); ok && q.Comment == "rangeindex" {
+							continue
+						}
+					}
+					if bo.Op == token.EQL || bo.Op == token.NEQ {
+						var other ssa.Value
+						if sv, ok := constString(bo.Y); ok && sv == "file" {
+							other = bo.X
+						} else if sv, ok := constString(bo.X); ok && sv == "file" {
+							other = bo.Y
+						}
+						if other != nil && f.True == (bo.Op == token.EQL) {
+							if _, path := purePath(other); len(path) > 0 && path[len(path)-1] == "Namespace" {
+								continue
+							}
+						}
+					}
+				}
+				extra = append(extra, p.Pos(c.Pos())+" "+c.String())
+			}
+			if len(extra) == 0 {
+				r.OK(key, true, "the insert is conditional only on the option gates, the loop over reachable files and Namespace == \"file\"")
+			} else {
+				r.Fail(key, p.Pos(mu.Pos()), "an input path is recorded for the overwrite check only under a further condition ("+strings.Join(extra, "; ")+"): inputs failing it can be overwritten without an error")
+			}
+		})
+	}
 	// AllowOverwrite forced on only when not writing
 	for _, fn := range p.ModuleFuncs() {
 		eachInstr(fn, func(b *ssa.BasicBlock, in ssa.Instruction) {
@@ -761,7 +814,7 @@ func c17OverwriteCheck(p *Prog) *RuleResult {
 		})
 	}
 	_ = types.Typ
-	r.Floor(5)
+	r.Floor(6)
 	return r
 }
 
